@@ -123,7 +123,24 @@ def check_generate(ctx, cfg, key, boxed):
     fe = [c for c in an.calls if c.fn in ("core::iter::Iterator::for_each", "core::iter::Iterator::fold", "core::iter::Iterator::try_for_each")]
     ok = len(fe) == 1 and fe[0].fn == "core::iter::Iterator::for_each"
     det = "expected exactly one for_each over the destination; found %s" % [c.fn for c in fe]
-    if not fe:
+    ext = [c for c in an.calls if c.key in ("IntrusiveArrayBuilder<$0,$1>::extend", "ArrayBuilder<$0,$1>::extend")]
+    if not fe and len(ext) == 1:
+        # generate = builder.extend((0..N).map(f)): extend zips the builder's slots (receiver, polled first) with the source and stores the k-th item
+        # into slot k (C07.Z); the k-th item of map(0..N, f) is f(k), evaluated when slot k is reached; exactly N items, so f runs N times in index order
+        e = ext[0]
+        src = e.args[1]
+        blds = [i for i in range(len(an.locals)) if local_adt(an, i) in owners]
+        recv = e.args[0][0] == "P" and e.args[0][1][0] == "local" and e.args[0][1][1] in blds and not e.args[0][2].t
+        shape = isinstance(src, tuple) and len(src) == 5 and src[:3] == ("V", "iter", "map")
+        rng = shape and isinstance(src[3], tuple) and len(src[3]) == 3 and src[3][0] == "A" and isinstance(src[3][1], tuple) and src[3][1][:2] == ("adt", "core::ops::Range") \
+            and src[3][2][0] == ("I", Poly.const(0)) and src[3][2][1] == ("I", N)
+        # the mapping function is the generator itself (by value or by &mut): map calls it once per item with the item
+        fpar = shape and (src[4] == ("V", "arg", 1) or (src[4][0] == "P" and src[4][1] == ("local", 1) and not src[4][2].t) or (src[4][0] == "P" and src[4][1] == ("arg", 1) and not src[4][2].t))
+        fresh = recv and e.mem.get((("local", e.args[0][1][1]), ())) is not None and e.mem[(("local", e.args[0][1][1]), ())][0] == "A" and \
+            any(x == ("I", Poly.const(0)) for x in e.mem[(("local", e.args[0][1][1]), ())][2])
+        ok = bool(recv and shape and rng and fpar and fresh)
+        det = "generate = builder.extend(map(0..N, F)): receiver is a fresh tracked builder: %s/%s; source is map over exactly 0..N: %s; the mapping function is the generator F itself: %s (slot k <- F(k) by C07.Z)" % (recv, fresh, rng, fpar)
+    elif not fe:
         ok, det = generate_loop_form(an, owners, N)
     elif ok:
         pipe, cv = fe[0].args[0], fe[0].args[1]
